@@ -18,15 +18,16 @@ CONSTANTS Max,        \* tolerated run of consecutive failures (configuration)
 VARIABLES fails, feeds, ver, raised, cmd, hist
 vars == <<fails, feeds, ver, raised, cmd, hist>>
 
-Outcomes == {"ok", "timeout", "ezsperr", "timeout2"}
-Failure(o) == o # "ok"
+(* "okbad": the keep-alive succeeded and the free-buffer read was answered with an error STATUS - a successful feed *)
+Outcomes == {"ok", "okbad", "timeout", "ezsperr", "timeout2"}
+Failure(o) == o \notin {"ok", "okbad"}
 
 Init == /\ fails = 0 /\ feeds = 0 /\ ver \in {"v4", "later"}
         /\ raised = FALSE /\ cmd = "none" /\ hist = <<>>
 
 Feed(o) ==
     /\ o \in Outcomes
-    /\ (ver = "v4" => o # "timeout2")
+    /\ (ver = "v4" => o \notin {"timeout2", "okbad"})
     /\ feeds' = IF ver = "v4" THEN feeds ELSE feeds + 1
     /\ cmd' = IF ver = "v4" THEN "nop"
               ELSE IF feeds' % Period = 0 THEN "readAndClearCounters" ELSE "readCounters"
@@ -46,8 +47,9 @@ Spec == Init /\ [][Next]_vars
 RECURSIVE TrailingFailures(_)
 TrailingFailures(s) == IF s = <<>> \/ ~Failure(s[Len(s)]) THEN 0 ELSE 1 + TrailingFailures(SubSeq(s, 1, Len(s) - 1))
 RaisedIff == hist # <<>> => (raised <=> TrailingFailures(hist) > Max)
-SuccessClears == (hist # <<>> /\ hist[Len(hist)] = "ok") => (fails = 0 /\ ~raised)
+SuccessClears == (hist # <<>> /\ ~Failure(hist[Len(hist)])) => (fails = 0 /\ ~raised)
 KeepAlive == hist # <<>> => (ver = "v4" <=> cmd = "nop")
 ClearOnPeriod == (hist # <<>> /\ ver = "later") => ((cmd = "readAndClearCounters") <=> (feeds % Period = 0))
 Bound == Len(hist) <= 9
+Bound7 == Len(hist) <= 7
 =============================================================================
